@@ -8,6 +8,8 @@ DECIDES = ('in SplineGeometry.__eq__ every defining component (parametric dimens
            'comparison incl. its tolerance is symmetric under exchanging the operands (EQ3); __ne__ negates __eq__ (EQ4); '
            'no subclass overrides __eq__/__ne__ (EQ5); __deepcopy__ copies every attribute through copy.deepcopy and pre-seeds the memo only for self and the cache, so a copy carries the compared components of its source (IV4); the compared control point storage of a shape is its own - setters store fresh structures (ES1) - and the rational setters store on every normally returning path (WS4), so a change made through the public setters is always visible to the comparison of exactly one shape. the knot vector stored by a normalising shape is a new list (PU6).')
 NOT_DECIDED = 'nothing numerical is involved; transitivity is not an equivalence property of a tolerance comparison and is not claimed.'
+DECIDES += (' DC9: a deep copy shares nothing with its source and has equal content and aliasing (so it equals its source and an edit of one never reaches the other); '
+            'KS2: the compared knot vectors are the ones the user gave - no setter normalises the knots of a shape created with normalize_kv=False.')
 
 COMPONENTS = {
     'pdimension': {'pdimension', '_pdim'},
